@@ -426,7 +426,10 @@ int isa_l_min_fragments(void *desc, int *missing_idxs,
  */
 int isa_l_element_size(void* desc)
 {
-  return 8;
+    isa_l_descriptor *isa_l_desc = (isa_l_descriptor*) desc;
+
+    /* must agree with the word size get_aligned_data_size() aligns to */
+    return isa_l_desc->w;
 }
 
 int isa_l_exit(void *desc)
@@ -460,6 +463,10 @@ void * isa_l_common_init(struct ec_backend_args *args, void *backend_sohandle,
     desc->w = args->uargs.w;
 
     /* validate EC arguments */
+    if (desc->w % 8 != 0 || desc->w > 32) {
+        /* the word size is used in whole bytes to align the data */
+        goto error;
+    }
     {
         long long max_symbols = 1LL << desc->w;
         if ((desc->k + desc->m) > max_symbols) {
